@@ -10,7 +10,8 @@ def run(chk, replay=None):
     t = 't' if chk.thorough else 'q'
     cols = 3 if chk.thorough else 2
     if replay is not None:
-        rp = vcheck.Replayer(binary, seed=chk.seed, opts={'cols': cols})
+        cells = (replay.get('post') or {}).get('cells') or []
+        rp = vcheck.Replayer(binary, seed=chk.seed, opts={'cols': len(cells[0]) if cells else cols})
         v = rp.single(replay); chk.judged(replay)
         if v.get('v') != 'ok':
             chk.disagreement(replay, v, rp)
@@ -26,7 +27,8 @@ def run(chk, replay=None):
         chk.note_tlc(run_)
         chk.absorb(recs, verdicts, rp)
     chk.exhaustive = True
-    vcheck.absorb_sim(chk, rp, 'NixFrame', 'MC_NixFrame_sim.cfg', 300 if chk.thorough else 30, 20)
+    rp_sim = vcheck.Replayer(binary, seed=chk.seed, opts={'cols': 2, 'extra_cols': 5 if chk.thorough else 2}, chunk=100)      # the simulation configuration has 2 model columns in both tiers
+    vcheck.absorb_sim(chk, rp_sim, 'NixFrame', 'MC_NixFrame_sim.cfg', 300 if chk.thorough else 30, 20)
     chk.traces_validated = len(chk.distinct)
     chk.rule = ('one case per transition of all rows(n) / writeRow / writeCells / writeColumn(offset,count) / reopen histories (BFS exhaustive: %d model columns, '
                 '<=%d rows, depth %d) plus every step of long random histories (depth 20), incl. writes past the last row; executed per column-type rotation (seed); every cell read through readRow, readCell, readCells and every readColumn overload x offset x count') % (cols, 3, 5 if chk.thorough else 4)
